@@ -404,6 +404,54 @@ BUILTINS = {
 
 # --------------------------------------------------------------------------- container methods
 
+class SuperProxy(object):
+    """super(Cls, self): method lookup starts at the bases of Cls (classes found in the current module and the hook 'modules')"""
+
+    def __init__(self, cls, selfref, mods):
+        self.cls, self.selfref, self.mods = cls, selfref, mods
+
+    def call_method(self, I, name, args, kw):
+        ci = None
+        for m in self.mods:
+            if self.cls in m.classes:
+                ci = m.classes[self.cls]
+        if ci is None:
+            raise Undecided('super(): class %s not found' % self.cls)
+        for b in ci.bases:
+            for m in self.mods:
+                cb = m.classes.get(b)
+                seen = 0
+                while cb is not None and seen < 8:
+                    seen += 1
+                    if name in cb.methods:
+                        return I.call_funcdef(cb.methods[name], cb.module, cb.name, self.selfref, list(args), dict(kw), None, '%s.%s' % (cb.name, name))
+                    nb = None
+                    for b2 in cb.bases:
+                        for m2 in self.mods:
+                            if b2 in m2.classes:
+                                nb = m2.classes[b2]
+                    cb = nb
+        if name == '__init__':
+            return None      # object.__init__
+        raise Undecided('super().%s not found' % name)
+
+
+def _super(I, args, kw):
+    from . import source as _source
+    mods = []
+    if getattr(I, 'cur_mod', None) is not None:
+        mods.append(I.cur_mod)
+    mods += [_source.load(r) for r in I.hooks.get('modules', [])]
+    if len(args) == 2 and isinstance(args[0], _source.ClassInfo):
+        if args[0].module not in mods:
+            mods.append(args[0].module)
+        return SuperProxy(args[0].name, args[1], mods)
+    raise Undecided('super%r' % (tuple(args),))
+
+
+BUILTINS['super'] = _super
+
+
 def call_builtin_method(I, recv, name, args, kwargs, fr):
     recv = I.unwrap(recv, 'method ' + name)
     if recv is None:
